@@ -203,7 +203,11 @@ pub(crate) fn vin_ingredients() -> Vec<Box<dyn crate::ingredient::Ingredient>> {
 
 /// Allocate one `VIn` value in `zalsa`'s table (page-backed, no hashing).
 pub(crate) fn alloc_vin(zalsa: &Zalsa, revisions: [Revision; 2], durabilities: [Durability; 2]) -> Id {
-    let types = Arc::new(MemoTableTypes::default());
+    alloc_vin_with_types(zalsa, revisions, durabilities, Arc::new(MemoTableTypes::default()))
+}
+
+/// The same with a given memo-type table for the page (so that memos can be attached to the value).
+pub(crate) fn alloc_vin_with_types(zalsa: &Zalsa, revisions: [Revision; 2], durabilities: [Durability; 2], types: Arc<MemoTableTypes>) -> Id {
     let page = zalsa.table().push_page::<Value<VIn>>(IngredientIndex::new(0), types.clone());
     // SAFETY: single-threaded; we are the unique writer of the page.
     match unsafe {
